@@ -4,6 +4,7 @@ import (
 	"errors"
 	"io"
 	"math"
+	"math/big"
 	"regexp"
 	"strconv"
 	"strings"
@@ -501,7 +502,7 @@ func parseInt(s string, base int) (Value, error) {
 	for ; i < len(s); i++ {
 		if n >= cutoff {
 			// n*base overflows
-			return parseLargeInt(float64(n), s[i:], base, sign)
+			return parseLargeInt(s, base, sign)
 		}
 		v := digitVal(s[i])
 		if v >= base {
@@ -512,7 +513,7 @@ func parseInt(s string, base int) (Value, error) {
 		n1 := n + int64(v)
 		if n1 < n || n1 > maxVal {
 			// n+v overflows
-			return parseLargeInt(float64(n)+float64(v), s[i+1:], base, sign)
+			return parseLargeInt(s, base, sign)
 		}
 		n = n1
 	}
@@ -534,15 +535,25 @@ Error:
 	return _NaN, err
 }
 
-func parseLargeInt(n float64, s string, base int, sign bool) (Value, error) {
+// parseLargeInt handles the integers that do not fit into int64: s starts with at least one valid digit.
+// The result is the float64 nearest to the exact value of the digits (ties to even).
+func parseLargeInt(s string, base int, sign bool) (Value, error) {
 	i := 0
-	b := float64(base)
 	for ; i < len(s); i++ {
-		v := digitVal(s[i])
-		if v >= base {
+		if digitVal(s[i]) >= base {
 			break
 		}
-		n = n*b + float64(v)
+	}
+	var n float64
+	if digits := strings.TrimLeft(s[:i], "0"); len(digits) > 1100 {
+		// at least base^1100 >= 2^1100, beyond the largest float64: no need to convert the digits
+		n = math.Inf(1)
+	} else {
+		bi, ok := new(big.Int).SetString(digits, base)
+		if !ok {
+			return _NaN, strconv.ErrSyntax
+		}
+		n, _ = new(big.Float).SetInt(bi).Float64()
 	}
 	if sign {
 		n = -n
